@@ -81,6 +81,23 @@ type Task struct {
 	// as every other task has finished. Tasks started by a daemon are daemons.
 	Daemon bool
 	solo   bool // Solo mode: never parks
+	held   []heldLock // sim locks this task holds right now (for the general lockset probe)
+}
+
+type heldLock struct {
+	m     *RWMutex
+	write bool
+}
+
+func (t *Task) acquired(m *RWMutex, write bool) { t.held = append(t.held, heldLock{m, write}) }
+
+func (t *Task) released(m *RWMutex, write bool) {
+	for i := len(t.held) - 1; i >= 0; i-- {
+		if t.held[i].m == m && t.held[i].write == write {
+			t.held = append(t.held[:i], t.held[i+1:]...)
+			return
+		}
+	}
 }
 
 // LogEntry is one scheduling decision.
@@ -603,6 +620,8 @@ type RWMutex struct {
 	// accessField bookkeeping: who used a plain guarded field of the scope, and how
 	fieldUses    []*fieldUse
 	fieldFlagged bool
+	// otherField bookkeeping: Eraser's candidate locksets for every other plain field of the scope
+	eraser map[string]*eraserState
 }
 
 func (m *RWMutex) heldBy(t *Task, writeOnly bool) bool {
@@ -634,6 +653,7 @@ func (m *RWMutex) Lock() {
 	s.mu.Lock()
 	if m.w == nil && len(m.r) == 0 {
 		m.w = t
+		t.acquired(m, true)
 		s.Counters["lock"]++
 		s.mu.Unlock()
 		m.real.Lock()
@@ -646,6 +666,7 @@ func (m *RWMutex) Lock() {
 	s.mu.Lock()
 	m.pendingW--
 	m.w = t
+	t.acquired(m, true)
 	s.Counters["lock"]++
 	s.mu.Unlock()
 	m.real.Lock()
@@ -662,6 +683,7 @@ func (m *RWMutex) Unlock() {
 	ok := m.w == t
 	if ok {
 		m.w = nil
+		t.released(m, true)
 	}
 	s.mu.Unlock()
 	if !ok {
@@ -688,6 +710,7 @@ func (m *RWMutex) RLock() {
 	s.mu.Lock()
 	if m.w == nil && m.pendingW == 0 {
 		m.r = append(m.r, t)
+		t.acquired(m, false)
 		s.Counters["rlock"]++
 		s.mu.Unlock()
 		m.real.RLock()
@@ -698,6 +721,7 @@ func (m *RWMutex) RLock() {
 	s.yield(t, "rlock-wait", func() bool { return m.w == nil && m.pendingW == 0 })
 	s.mu.Lock()
 	m.r = append(m.r, t)
+	t.acquired(m, false)
 	s.Counters["rlock"]++
 	s.mu.Unlock()
 	m.real.RLock()
@@ -715,6 +739,7 @@ func (m *RWMutex) RUnlock() {
 	for i, x := range m.r {
 		if x == t {
 			m.r = append(m.r[:i], m.r[i+1:]...)
+			t.released(m, false)
 			ok = true
 			break
 		}
@@ -749,6 +774,7 @@ func (m *RWMutex) TryLock() bool {
 	ok := m.w == nil && len(m.r) == 0
 	if ok {
 		m.w = t
+		t.acquired(m, true)
 	}
 	s.mu.Unlock()
 	if ok {
@@ -768,6 +794,7 @@ func (m *RWMutex) TryRLock() bool {
 	ok := m.w == nil && m.pendingW == 0
 	if ok {
 		m.r = append(m.r, t)
+		t.acquired(m, false)
 	}
 	s.mu.Unlock()
 	if ok {
@@ -887,7 +914,11 @@ func AccessOf(x interface{}, table string, write bool, pos string) {
 	if l, ok := x.(interface{ SimLock(string) *RWMutex }); ok {
 		if m := l.SimLock(table); m != nil {
 			if table != "values" && table != "types" {
-				accessField(m, table, write, pos)
+				if table == "externalLookup" {
+					accessField(m, table, write, pos)
+				} else {
+					otherField(m, table, write, pos)
+				}
 				return
 			}
 			Access(m, write, pos)
@@ -956,6 +987,93 @@ func accessField(m *RWMutex, field string, write bool, pos string) {
 	}
 	s.mu.Unlock()
 	if detail != "" && !flagged {
+		s.violate("lockset", detail, t)
+	}
+}
+
+// eraserState is the state of one plain field of one scope in Eraser's lockset algorithm (Savage et al. 1997),
+// with reader/writer locks and one tolerated hand-over of ownership.
+type eraserState struct {
+	owner     *Task // the only task that has touched the field so far (or since the one tolerated hand-over)
+	handovers int
+	shared    bool
+	modified  bool       // written since it became shared
+	cand      []*RWMutex // candidate locks: held at every access since the field became shared
+	lastBare  string     // position of the last access that held no candidate lock
+	flagged   bool
+}
+
+// otherField is the lockset probe for the plain fields of a scope other than its tables and its external lookup
+// (a counter, a listing order, a cached pointer: whatever a change adds to the struct). No lock is known to guard
+// such a field, so the rule is Eraser's: while one task has the field to itself nothing is demanded (one hand-over
+// to a second task is tolerated: a scope built by one goroutine and then used by another); once it is shared, the
+// locks held at EVERY access are intersected - a write counts only the locks it holds in write mode - and a field
+// that has been written since it became shared with an empty intersection is a data race on real threads,
+// whatever the simulation happened to interleave. Fields kept in sync / sync/atomic types are never probed.
+func otherField(m *RWMutex, field string, write bool, pos string) {
+	s, t := current()
+	if t == nil {
+		return
+	}
+	s.mu.Lock()
+	s.Counters["access_other_field"]++
+	if m.eraser == nil {
+		m.eraser = map[string]*eraserState{}
+	}
+	st := m.eraser[field]
+	if st == nil {
+		st = &eraserState{owner: t}
+		m.eraser[field] = st
+	}
+	var held []*RWMutex
+	for _, h := range t.held {
+		if !write || h.write {
+			held = append(held, h.m)
+		}
+	}
+	detail := ""
+	if !st.shared {
+		if st.owner != t {
+			if st.handovers == 0 {
+				st.owner, st.handovers = t, 1
+			} else {
+				st.shared, st.cand = true, held
+			}
+		}
+	} else {
+		var keep []*RWMutex
+		for _, c := range st.cand {
+			for _, h := range held {
+				if c == h {
+					keep = append(keep, c)
+					break
+				}
+			}
+		}
+		st.cand = keep
+	}
+	if st.shared {
+		if write {
+			st.modified = true
+		}
+		if len(held) == 0 {
+			st.lastBare = pos
+		}
+		if st.modified && len(st.cand) == 0 && !st.flagged {
+			st.flagged = true
+			mode := "read"
+			if write {
+				mode = "write"
+			}
+			detail = fmt.Sprintf("%s of the scope's field %s at %s: the field is used by several tasks and written, and no lock is held (in the mode the access needs) at every one of those accesses", mode, field, pos)
+			if st.lastBare != "" && st.lastBare != pos {
+				detail += "; an access without any lock: " + st.lastBare
+			}
+			s.Counters["lockset_other_field"]++
+		}
+	}
+	s.mu.Unlock()
+	if detail != "" {
 		s.violate("lockset", detail, t)
 	}
 }
